@@ -676,6 +676,153 @@ def check_scope_withdrawn(eng, run):
     run.floor("C18.tear published cancel scopes", n, 2)
 
 
+def check_cancel_request_honoured(eng, run):
+    """a function that publishes a cancel scope for another method to cancel and, after the block, installs what the block produced into
+    the object's state, asks the scope whether a cancellation was *requested* (`cancel_called()`): `cancelled_caught()` is False when the
+    request arrived while the body was shielded and met no later checkpoint - the result would be installed although the other
+    method (server_close()) has returned successfully (finding F8: the server came up after server_close())."""
+    n = 0
+    for fn in eng.db.all_functions():
+        if isinstance(fn.node, ast.Lambda) or not fn.module.name.startswith(("easynetwork.servers", "easynetwork.lowlevel.api_async")):
+            continue
+        for w in [x for x in own_nodes(fn.node) if isinstance(x, (ast.With, ast.AsyncWith))]:
+            for it in w.items:
+                ov, ce = it.optional_vars, it.context_expr
+                if not (isinstance(ov, ast.Attribute) and isinstance(ce, ast.Call) and isinstance(ce.func, ast.Attribute) and ce.func.attr in ("open_cancel_scope", "move_on_after", "move_on_at")):
+                    continue
+                scope = dotted(ov)
+                end = getattr(w, "end_lineno", w.lineno)
+                installs = [x for x in own_nodes(fn.node) if isinstance(x, (ast.Assign, ast.AugAssign)) and x.lineno > end
+                            and any((isinstance(t, ast.Attribute) and dotted(t) != scope and dotted(t.value) == fn.self_name) or
+                                    (isinstance(t, ast.Subscript) and isinstance(t.value, ast.Attribute) and dotted(t.value.value) == fn.self_name)
+                                    for t in (x.targets if isinstance(x, ast.Assign) else [x.target]))
+                            and not (isinstance(x, ast.Assign) and isinstance(x.value, ast.Constant) and x.value.value is None)]
+                if not installs:
+                    continue
+                n += 1
+                asked = {c.func.attr for c in own_nodes(fn.node) if isinstance(c, ast.Call) and isinstance(c.func, ast.Attribute) and dotted(c.func.value) == scope and c.lineno > end}
+                ok = "cancel_called" in asked
+                if not ok:
+                    run.finding("C18.refuse", fn, installs[0], f"the result of the block run under the published scope `{scope}` is installed after asking only "
+                                f"{sorted(asked) or 'nothing'}: a cancel() that was requested but not delivered (the body was shielded and met no later checkpoint) is ignored - "
+                                "the listeners are installed and the server comes up although server_close() returned successfully")
+                run.ob("C18.refuse", f"{fn.short}:{scope.split('.')[-1]}:cancel-request-honoured-before-install", ok, asked=sorted(asked))
+    run.floor("C18.refuse published scopes guarding a state install", n, 1)
+
+
+def check_counter_tested(eng, run):
+    """the auto-stop of the async server (`__detach_server`: cancel the run scope when nothing is left to serve) tests the very counter
+    the function has just decremented - not another collection that only empties when serve_forever() has already ended"""
+    aa = eng.db.cls(f"{BASE}.BaseAsyncNetworkServerImpl")
+    n = 0
+    for fn in aa.methods.values():
+        if isinstance(fn.node, ast.Lambda):
+            continue
+        decs = [x for x in own_nodes(fn.node) if isinstance(x, ast.AugAssign) and isinstance(x.op, ast.Sub) and isinstance(x.target, ast.Attribute) and dotted(x.target.value) == fn.self_name]
+        stops = [i for i in own_nodes(fn.node) if isinstance(i, ast.If) and any(isinstance(c, ast.Call) and isinstance(c.func, ast.Attribute) and c.func.attr == "cancel" for b in i.body for c in ast.walk(b))]
+        if not decs or not stops:
+            continue
+        n += 1
+        counters = {dotted(d.target) for d in decs}
+        # only the innermost test around each cancel is judged, together with every test that encloses it (nested ifs, early returns)
+        stops = [i for i in stops if not any(j is not i and any(i is x for x in ast.walk(j)) and False for j in stops)]
+        all_ifs = [i for i in own_nodes(fn.node) if isinstance(i, ast.If)]
+        guards = [i for i in all_ifs if any(isinstance(r, ast.Return) for r in i.body)]  # `if <counter>: return` before the cancel
+        for i in stops:
+            enclosing = [j for j in all_ifs if j is i or any(i is x for x in ast.walk(j))]
+            read = {dotted(a) for j in enclosing + [g for g in guards if g.lineno < i.lineno] for a in ast.walk(j.test) if isinstance(a, ast.Attribute)}
+            from sa.analyses.buffers import through_local
+            for j in enclosing:
+                for nm in [x for x in ast.walk(j.test) if isinstance(x, ast.Name)]:
+                    v = through_local(fn, nm)
+                    if v is not nm:
+                        read |= {dotted(a) for a in ast.walk(v) if isinstance(a, ast.Attribute)}
+            ok = bool(counters & read)
+            if not ok:
+                run.finding("C18.order", fn, i, f"the stop condition does not test the counter this function decrements ({sorted(c.split('.')[-1] for c in counters)}): when the listeners are closed while "
+                            "serve_forever() runs, nothing cancels the run scope and serve_forever() never returns")
+            run.ob("C18.order", f"{fn.short}:stop-condition-tests-the-decremented-counter", ok)
+    run.floor("C18.order auto-stop functions", n, 1)
+
+
+PRIMITIVE_FACTORIES = ("create_lock", "create_fair_lock", "create_event", "create_condition_var", "Lock", "RLock", "Event", "Condition", "ForkSafeLock", "ResourceGuard", "Semaphore")
+
+
+def check_distinct_primitives(eng, run):
+    """two attributes that play different synchronisation roles are not bound to one object: a chained assignment
+    `self.a = self.b = create_lock()` makes the activation lock and the close lock the same lock - server_close() then queues behind the
+    activation it is supposed to interrupt"""
+    n = 0
+    for fn in eng.db.all_functions():
+        if isinstance(fn.node, ast.Lambda) or fn.self_name is None or not fn.module.name.startswith("easynetwork."):
+            continue
+        for st in own_nodes(fn.node):
+            if isinstance(st, ast.Assign) and isinstance(st.value, ast.Call) and (dotted(st.value.func) or "").split(".")[-1] in PRIMITIVE_FACTORIES:
+                attrs = [t for t in st.targets if isinstance(t, ast.Attribute) and dotted(t.value) == fn.self_name]
+                if not attrs:
+                    continue
+                n += 1
+                ok = len(attrs) <= 1
+                if not ok:
+                    run.finding("C18.order", fn, st, f"{[a.attr for a in attrs]} are bound to one and the same synchronisation object: the two roles can no longer be taken independently "
+                                "(a close request waits behind the activation it should cancel, then finds the server in its set-up section)")
+                run.ob("C18.order", f"{fn.short}:{attrs[0].attr}:own-primitive", ok)
+    run.floor("C18.order synchronisation primitives created for attributes", n, 6)
+
+
+def check_reuse_address(eng, run):
+    """'a stopped server can serve again': the TCP listeners are opened with SO_REUSEADDR on POSIX - the flag handed to
+    open_listener_sockets_from_getaddrinfo_result() evaluates to True for os.name == 'posix' / sys.platform == 'linux' (evaluated from
+    the expression; a server port in TIME_WAIT otherwise refuses the next serve_forever() with EADDRINUSE)"""
+    env = {"os.name": "posix", "sys.platform": "linux"}
+
+    def ev(e, fn):
+        from sa.analyses.buffers import through_local
+        if isinstance(e, ast.Name):
+            e2 = through_local(fn, e)
+            return ev(e2, fn) if e2 is not e else None
+        if isinstance(e, ast.Constant):
+            return e.value
+        if isinstance(e, ast.Attribute):
+            return env.get(dotted(e) or "", None)
+        if isinstance(e, (ast.Tuple, ast.List, ast.Set)):
+            vals = [ev(x, fn) for x in e.elts]
+            return None if any(v is None for v in vals) else tuple(vals)
+        if isinstance(e, ast.UnaryOp) and isinstance(e.op, ast.Not):
+            v = ev(e.operand, fn)
+            return None if v is None else (not v)
+        if isinstance(e, ast.BoolOp):
+            vals = [ev(x, fn) for x in e.values]
+            if isinstance(e.op, ast.And):
+                return False if any(v is False for v in vals) else (None if any(v is None for v in vals) else all(vals))
+            return True if any(v is True for v in vals) else (None if any(v is None for v in vals) else any(vals))
+        if isinstance(e, ast.Compare) and len(e.ops) == 1:
+            a, b = ev(e.left, fn), ev(e.comparators[0], fn)
+            if a is None or b is None:
+                return None
+            op = e.ops[0]
+            return {ast.Eq: a == b, ast.NotEq: a != b}.get(type(op)) if isinstance(op, (ast.Eq, ast.NotEq)) else ((a in b) if isinstance(op, ast.In) else ((a not in b) if isinstance(op, ast.NotIn) else None))
+        return None
+
+    n = 0
+    for fn in eng.db.all_functions():
+        if isinstance(fn.node, ast.Lambda) or fn.name != "create_tcp_listeners":
+            continue
+        for c in own_nodes(fn.node):
+            if isinstance(c, ast.Call) and (dotted(c.func) or "").endswith("open_listener_sockets_from_getaddrinfo_result"):
+                kw = next((k.value for k in c.keywords if k.arg == "reuse_address"), None)
+                if kw is None:
+                    continue
+                n += 1
+                v = ev(kw, fn)
+                ok = v is not False  # undecidable expressions are not judged
+                if not ok:
+                    run.finding("C18.refuse", fn, c, "the TCP listeners are opened without SO_REUSEADDR on POSIX (the flag evaluates to False for os.name='posix', sys.platform='linux'): after a run whose "
+                                "server side closed a connection the port is in TIME_WAIT and the stopped server cannot serve again (EADDRINUSE)")
+                run.ob("C18.refuse", f"{fn.module.name.split('.')[-2]}.{fn.short}:reuse-address-on-posix", ok, evaluated=v is not None)
+    run.floor("C18.refuse TCP listener factories", n, 1)
+
+
 def check_closed_latch_set(eng, run):
     """standalone server_close(): the closed latch is set on every exit, whether or not the server is running at that moment (it is
     set directly, or registered on an exit stack that is entered before anything can fail)"""
@@ -760,6 +907,10 @@ def run(eng, run):
     run.attempt(check_join_shuts_down, eng, run)
     run.attempt(check_default_after_running_test, eng, run)
     run.attempt(check_scope_withdrawn, eng, run)
+    run.attempt(check_cancel_request_honoured, eng, run)
+    run.attempt(check_counter_tested, eng, run)
+    run.attempt(check_distinct_primitives, eng, run)
+    run.attempt(check_reuse_address, eng, run)
     run.end_of_rules()
 
 
